@@ -77,7 +77,8 @@ impl SStream {
     let want = if self.pos < self.s.items.len() {
       self.s.items[self.pos].0
     } else if self.s.endless {
-      0
+      // an endless async source yields to the executor between items
+      1
     } else {
       self.s.end_pending
     };
@@ -92,10 +93,10 @@ impl SStream {
       let it = self.s.items[self.pos].1.clone();
       self.pos += 1;
       Poll::Ready(Some(it))
-    } else if self.s.endless {
+    } else if self.s.endless && self.extra < 1500 {
       self.extra += 1;
       self.pos += 1;
-      Poll::Ready(Some(Ok(V::I(1000 + self.extra))))
+      Poll::Ready(Some(Ok(V::I(self.extra % 3))))
     } else {
       self.done = true;
       Poll::Ready(None)
